@@ -260,12 +260,27 @@ def run(prop, tier, seed):
             mach.append("leg A %s did not complete %s" % (n, r["errors"][:1]))
         for kind, name in r["violations"]:
             mach.append("ConveyorRef violates %s in %s (reference model / closed form wrong)" % (name, n))
+    slotted_model = []
+    if prop == "C12":
+        # the slotted belt store is also a kind of StoreCore (exhaustive model + graph walk on the real class in the store
+        # engine); its design-level travel-time / order clause belongs to C12
+        from . import store_engine
+        for n, r in store_engine.leg_a(tier).items():
+            if n.startswith("slotted"):
+                slotted_model.append({"config": n, "distinct": r["distinct"]})
+                states += r["distinct"]
+                trans += r["generated"]
+                if not r["completed"] or r["errors"]:
+                    mach.append("leg A %s did not complete %s" % (n, r["errors"][:1]))
+                for kind, name in r["violations"]:
+                    if name == "M_C12_Travel":
+                        mach.append("Store model (kind slotted) violates %s in %s" % (name, n))
     f0 = sorted(lc)[0]
     samples = [{"config": t["name"], "cfg": t["cfg"], "pattern": t.get("pattern"),
                 "events": ["%s(%d)@%d" % (e["k"], e["it"], e["t"]) for e in t["ev"][:16]]}
                for t in common.load_json(os.path.join(d, f0))[:3]]
     coverage = {"states": states, "transitions": trans, "traces_validated_against_impl": ntr, "samples": samples,
-                "legA_configs": [{"config": n, "distinct": r["distinct"]} for n, r in la.items()],
+                "legA_configs": [{"config": n, "distinct": r["distinct"]} for n, r in la.items()] + slotted_model,
                 "legA_clauses": R_INV[prop] + R_PROP[prop], "legC_clauses": sorted(mine), "legC_events_judged": nev,
                 "runs_of_real_conveyors": st["runs"], "outcomes": st["outcomes"], "exhaustive": False,
                 "evaluations": nev, "distinct_nontrivial": st["runs"],
@@ -276,7 +291,7 @@ def run(prop, tier, seed):
                    "the implementation-shaped belt model (BeltImpl) is not built; leg A is the reference model ConveyorRef, "
                    "which also proves the closed forms the trace oracle uses",
                    "TLC, Json/IOUtils, SimPy are trusted"]
-    summary = "%d scripted runs of real conveyors, %d events judged, ConveyorRef %d states" % (st["runs"], nev, states)
+    summary = "%d scripted runs of real conveyors, %d events judged, models (ConveyorRef + slotted store) %d states" % (st["runs"], nev, states)
     return {"violations": violations, "machinery_errors": mach, "level": "model_checking", "coverage": coverage,
             "assumptions": assumptions, "summary": summary}
 
